@@ -65,3 +65,15 @@ claim("C04", "other",
       "orientation, preprocessing orients every record incl. target 0) evaluated natively.",
       TB + "cos/sin uninterpreted; only the named identities (Pythagoras, angle addition, parity, periodicity) are assumed, each lemma lists the instances it uses.",
       "contract-based deductive verification (z3+cvc5, nonlinear real lemmas over trig axioms) + bounded native evaluation of processing-level consequences", "DESIGN.md 5/C04")
+
+claim("C05", "other",
+      "Proof: _nth_std_factory returns mean + n std (normal) / exp(log mean + n std) (lognormal, for both spellings) and raises "
+      "NotImplementedError for any other name; the DISTRIBUTION_MAP aliases (structural); +-n symmetry lemmas. Cross-check / bounded "
+      "(labelled): every statistic of HvsrTraditional (means, sample standard deviations, +-n values, covariance, mean / std / nth-std "
+      "curves, mean-curve peak, for 'normal', 'lognormal' and 'log-normal') equals the textbook estimator applied to exactly the accepted "
+      "windows after random histories (peak-range updates, frequency-domain rejection, manual rejections, mask replacement), equals the "
+      "statistic of an object built from the accepted windows alone, accessors are read-only, lognormal frequency/period consistency. The "
+      "vectorised NaN-aware numpy code (boolean-mask compress, nansum, np.cov) is outside the PyVC subset. Known finding F-9 is reported "
+      "by its own clause.",
+      TB + "numpy nansum / cov external; the cross-check bound: 4-11 windows x 20-50 samples, up to 6 history steps per object.",
+      "contract-based deductive verification of the distribution-dependent formulas + native evaluation of the estimator contracts over mask histories", "DESIGN.md 5/C05")
